@@ -20,6 +20,7 @@ def run(run, model):
     run.do(inv.phases, model)
     run.do(inv.ctor, model)
     run.do(inv.self_rule, model)
+    run.do(inv.find_self, model, "C03.find-self")
     run.do(inv.meta_reapply, model, "C03.meta-reapply", None)
     run.do(marker.body_rules, model, None, "C03.body-held")
     from . import fwd, c04
